@@ -539,9 +539,16 @@ func (p *CountPB) Finish()            {}
 func (p *CountPB) Increment() int     { p.add(1); return 0 }
 func (p *CountPB) Add(add int) int    { p.add(add); return 0 }
 func (p *CountPB) Set(current int) {
+	// a progress event like Add (IndexFromFile reports its progress this way)
 	p.mu.Lock()
 	p.Sum = int64(current)
+	p.Calls++
+	c := p.Calls
+	f := p.OnAdd
 	p.mu.Unlock()
+	if f != nil {
+		f(c)
+	}
 }
 func (p *CountPB) Write(b []byte) (int, error) { return len(b), nil }
 func (p *CountPB) add(n int) {
